@@ -23,9 +23,16 @@ def L(pred, args=(), neg=False):
     return [pred, list(args), bool(neg)]
 
 
-def gen(rng, stratified=True, allow_cycles=True, max_consts=3, extremes=0.08, n_evidence=None, bias_big=True):
-    """Generate one program.  stratified=True keeps negation on strictly lower strata (C01 fragment);
-    stratified=False (G_negcycle) lets negated literals refer to any predicate."""
+def gen(rng, stratified=True, allow_cycles=True, max_consts=3, extremes=0.08, n_evidence=None, mode=None):
+    """Generate one program.  stratified=True keeps negation on strictly lower levels (C01 fragment) while positive
+    literals may refer to any predicate of the same or a lower level (self and mutual recursion);
+    stratified=False (G_negcycle) lets negated literals refer to any predicate.
+    mode: 'mixed' (arity 0-2 predicates), 'prop' (dense propositional mutual recursion), 'graph' (probabilistic
+    graph reachability, left/right recursive), None = random choice."""
+    if mode is None:
+        mode = rng.choice(["mixed"] * 6 + ["prop"] * 2 + ["graph"] * 2)
+    if mode == "graph":
+        return gen_graph(rng, stratified, n_evidence)
     consts = [1, 2, 3][: (rng.choice([2, 3]) if max_consts >= 3 else 2)]
     clauses = []
     facts = []
@@ -35,7 +42,7 @@ def gen(rng, stratified=True, allow_cycles=True, max_consts=3, extremes=0.08, n_
             return rng.choice(["0.0", "1.0"])
         return rng.choice(PAL)
     for i in range(rng.randint(2, 4)):
-        ar = rng.choice([0, 1, 1, 2])
+        ar = rng.choice([0, 1, 1, 2]) if mode == "mixed" else 0
         name = "f%d" % i
         facts.append((name, ar))
         n = 0
@@ -47,18 +54,27 @@ def gen(rng, stratified=True, allow_cycles=True, max_consts=3, extremes=0.08, n_
                     clauses.append(["fact", prob(), L(name, args)])
         if n == 0:
             clauses.append(["fact", prob(), L(name, [consts[0]] * ar)])
-    npred = rng.randint(2, 4)
-    preds = [("d%d" % j, rng.choice([0, 1, 1, 2])) for j in range(npred)]
+    npred = rng.randint(2, 4) if mode == "mixed" else rng.randint(3, 5)
+    preds = [("d%d" % j, rng.choice([0, 1, 1, 2]) if mode == "mixed" else 0) for j in range(npred)]
+    # levels: non-decreasing; predicates of one level may be mutually recursive
+    nlev = rng.choice([1, 2, 2, 3]) if mode == "mixed" else rng.choice([1, 1, 2])
+    level = sorted(rng.randrange(nlev) for _ in preds)
 
     def rand_args(qa, bvars):
         return [rng.choice(bvars) if bvars and rng.random() < 0.85 else rng.choice(consts) for _ in range(qa)]
 
     def body_for(j, hv):
         bvars = list(hv)
-        if len(bvars) < 3 and rng.random() < 0.45:
+        if mode == "mixed" and len(bvars) < 3 and rng.random() < 0.45:
             bvars.append(V[len(bvars)])
-        hi = j + 1 if allow_cycles else j
-        cand = facts + preds[:hi]
+        if allow_cycles:
+            same = [pq for k, pq in enumerate(preds) if level[k] <= level[j]]
+        else:
+            same = preds[:j]
+        lower = [pq for k, pq in enumerate(preds) if level[k] < level[j]]
+        cand = facts + same
+        if mode == "prop":
+            cand = facts + same + same
         if not stratified and rng.random() < 0.3:
             cand = facts + preds
         need = list(bvars)
@@ -81,12 +97,12 @@ def gen(rng, stratified=True, allow_cycles=True, max_consts=3, extremes=0.08, n_
             pos.append(L(q, args))
         for v in need:
             pos.append(L("dom", [v]))
-        if len(pos) < 3 and rng.random() < 0.3:
+        if len(pos) < 3 and rng.random() < (0.3 if mode == "mixed" else 0.6):
             q, qa = rng.choice(cand)
             pos.append(L(q, rand_args(qa, bvars)))
         body = pos
         if rng.random() < (0.4 if stratified else 0.6):
-            low = facts + preds[:j] if stratified else facts + preds
+            low = facts + lower if stratified else facts + preds
             if not stratified and rng.random() < 0.5:
                 low = preds
             q, qa = rng.choice(low)
@@ -95,7 +111,7 @@ def gen(rng, stratified=True, allow_cycles=True, max_consts=3, extremes=0.08, n_
 
     adheads = {}
     for j, (p, ar) in enumerate(preds):
-        for r in range(rng.randint(1, 3)):
+        for r in range(rng.randint(1, 3) if mode == "mixed" else rng.randint(2, 3)):
             hv = V[:ar]
             head = L(p, hv)
             kind = rng.random()
@@ -128,7 +144,8 @@ def gen(rng, stratified=True, allow_cycles=True, max_consts=3, extremes=0.08, n_
         clauses.append(["rule", None, L("dom", [c]), []])
     allp = preds + sorted(adheads.items())
     queries = []
-    for p, ar in rng.sample(allp, min(rng.randint(1, 3), len(allp))):
+    nq = rng.randint(1, 3) if mode == "mixed" else rng.randint(2, 4)
+    for p, ar in rng.sample(allp, min(nq, len(allp))):
         queries.append(L(p, [rng.choice(["_"] + consts) for _ in range(ar)]))
     evidence = []
     ne = n_evidence if n_evidence is not None else rng.choice([0, 0, 1, 1, 2])
@@ -140,6 +157,67 @@ def gen(rng, stratified=True, allow_cycles=True, max_consts=3, extremes=0.08, n_
     # shuffle clause order a little (facts first is not required by the semantics)
     if rng.random() < 0.3:
         rng.shuffle(clauses)
+    return dict(consts=consts, clauses=clauses, queries=queries, evidence=evidence)
+
+
+def gen_graph(rng, stratified=True, n_evidence=None):
+    """probabilistic graph reachability over 3-4 nodes with cycles; left-, right- or doubly-recursive path/2,
+    optional second relation, several / non-ground queries, evidence on path atoms"""
+    n = rng.choice([3, 3, 4])
+    consts = list(range(1, n + 1))
+    clauses = []
+    edges = [(a, b) for a in consts for b in consts if a != b or rng.random() < 0.15]
+    rng.shuffle(edges)
+    ne = rng.randint(n, min(len(edges), n + 3))
+    for a, b in edges[:ne]:
+        clauses.append(["fact", rng.choice(PAL), L("f0", [a, b])])
+    for c in consts:
+        if rng.random() < 0.5:
+            clauses.append(["fact", rng.choice(PAL), L("f1", [c])])
+    if not any(c[2][0] == "f1" for c in clauses):
+        clauses.append(["fact", "0.5", L("f1", [consts[0]])])
+    E = "f0"
+    style = rng.choice(["right", "left", "right", "left", "sym", "double"])
+    if style == "double" and (n > 3 or ne > 4):
+        style = "left"  # doubly recursive closure makes cycle breaking explode (slow, not wrong): keep it tiny
+    clauses.append(["rule", None, L("d0", ["X", "Y"]), [L(E, ["X", "Y"])]])
+    if style == "right":
+        clauses.append(["rule", None, L("d0", ["X", "Y"]), [L(E, ["X", "Z"]), L("d0", ["Z", "Y"])]])
+    elif style == "left":
+        clauses.append(["rule", None, L("d0", ["X", "Y"]), [L("d0", ["X", "Z"]), L(E, ["Z", "Y"])]])
+    elif style == "double":
+        clauses.append(["rule", None, L("d0", ["X", "Y"]), [L("d0", ["X", "Z"]), L("d0", ["Z", "Y"])]])
+    else:
+        clauses.append(["rule", None, L("d0", ["X", "Y"]), [L("d0", ["Y", "X"])]])
+        clauses.append(["rule", None, L("d0", ["X", "Y"]), [L(E, ["X", "Z"]), L("d0", ["Z", "Y"])]])
+    if rng.random() < 0.5:
+        # a second, mutually recursive relation
+        clauses.append(["rule", None, L("d1", ["X"]), [L("f1", ["X"])]])
+        clauses.append(["rule", None, L("d1", ["X"]), [L("d0", ["X", "Y"]), L("d1", ["Y"])]])
+        if rng.random() < 0.4:
+            clauses.append(["rule", rng.choice(PAL), L("d0", ["X", "Y"]), [L("d1", ["X"]), L("d1", ["Y"]), L("dom", ["X"]), L("dom", ["Y"])]])
+    else:
+        clauses.append(["rule", None, L("d1", ["X"]), [L("d0", ["X", "X"])]])
+    if rng.random() < 0.4:
+        clauses.append(["rule", None, L("d2", ["X"]), [L("dom", ["X"]), L("d1", ["X"], neg=True)]])
+        preds = [("d0", 2), ("d1", 1), ("d2", 1)]
+    else:
+        preds = [("d0", 2), ("d1", 1)]
+    for c in consts:
+        clauses.append(["rule", None, L("dom", [c]), []])
+    queries = []
+    for _ in range(rng.randint(1, 4)):
+        p, ar = rng.choice(preds)
+        q = L(p, [rng.choice(["_"] + consts) for _ in range(ar)])
+        if q not in queries:
+            queries.append(q)
+    evidence = []
+    ne = n_evidence if n_evidence is not None else rng.choice([0, 0, 1, 1, 2])
+    for _ in range(ne):
+        p, ar = rng.choice(preds + [("f0", 2)])
+        e = L(p, [rng.choice(consts) for _ in range(ar)])
+        if not any(x[0][:2] == e[:2] for x in evidence):
+            evidence.append([e, rng.random() < 0.5])
     return dict(consts=consts, clauses=clauses, queries=queries, evidence=evidence)
 
 
@@ -244,21 +322,28 @@ def features(prog):
         if c[0] in ("fact", "rule") and c[1] in ("0.0", "1.0"):
             f["extreme_p"] = True
     f["contra_ev"] = False
+    f["contra_cyc"] = False
     for heads, body, _p in rules:
         # a body literal that contradicts an evidence atom makes the body deterministically FALSE after evidence
         # propagation: the same 'false proof' mechanism as a syntactic contradiction (known finding KF-A)
+        oncyc = any(h[0] in cyc for h in heads)
         for l in body:
             for e, v in prog["evidence"]:
                 if e[0] == l[0] and bool(v) == bool(l[2]) and all(x == y or isvar(x) for x, y in zip(l[1], e[1])):
                     f["contra_ev"] = True
+                    if oncyc:
+                        f["contra_cyc"] = True
     for heads, body, _p in rules:
         pos = [l for l in body if not l[2]]
+        oncyc = any(h[0] in cyc for h in heads)
         for n in [l for l in body if l[2]]:
             f["has_neg"] = True
             for q in pos:
                 if q[0] == n[0] and len(q[1]) == len(n[1]) and all(
                         x == y or isvar(x) or isvar(y) for x, y in zip(q[1], n[1])):
                     f["contra"] = True
+                    if oncyc:
+                        f["contra_cyc"] = True
             for h in heads:
                 if n[0] == h[0] or reach(n[0], h[0]):
                     f["pred_neg_cycle"] = True
@@ -266,8 +351,37 @@ def features(prog):
                 for h in heads:
                     if h[0] in cyc or any(reach(c, h[0]) for c in cyc):
                         f["neg_cyclic_in_cycle"] = True
-    f["clean"] = not ((f["contra"] or f["contra_ev"]) and f["rec"]) and not f["neg_cyclic_in_cycle"]
+    f["clean"] = not f["contra_cyc"] and not f["neg_cyclic_in_cycle"]
     return f
+
+
+def cyclic_preds(prog):
+    dep = {}
+    for heads, body, _p in rules_of(prog):
+        for h in heads:
+            for l in body:
+                dep.setdefault(h[0], set()).add(l[0])
+    out = set()
+    for p0 in dep:
+        seen, st = set(), [p0]
+        while st:
+            x = st.pop()
+            for y in dep.get(x, ()):
+                if y == p0:
+                    out.add(p0)
+                if y not in seen:
+                    seen.add(y)
+                    st.append(y)
+    return out
+
+
+def refine_with_reference(F, R):
+    """the reference knows whether a ground clause body on a cycle is FALSE in every world (e.g. p(X), \\+q(X) where
+    q is an alias of p): same 'false proof inside a cycle' input class as a syntactic contradiction"""
+    if getattr(R, "dead_body_in_cycle", False):
+        F["contra_cyc"] = True
+        F["clean"] = False
+    return F
 
 
 def feat_list(f):
